@@ -247,6 +247,9 @@ class SyncObj(object):
 
         self.__onSetCodeVersion(0)
 
+        if self.__conf.dynamicMembershipChange:
+            self.__applyClusterChangesFromLog(0)
+
         self.__thread = None
         self.__mainThread = None
         self.__initialised = None
@@ -842,11 +845,10 @@ class SyncObj(object):
                 callback(oldVer, ver)
             return
 
-        #  This is required only after node restarts and apply journal
-        # for normal case it is already done earlier and calls will be ignored
-        clusterChangeRequest = self.__parseChangeClusterRequest(command)
-        if clusterChangeRequest is not None:
-             self.__doChangeCluster(clusterChangeRequest)
+        # Membership changes take effect when they enter the log (see __applyClusterChangesFromLog
+        # for entries loaded from the journal), executing them again here would re-apply an old
+        # change on top of newer ones that are already in the log.
+        if commandType == _COMMAND_TYPE.MEMBERSHIP:
              return
 
         if commandType != _COMMAND_TYPE.REGULAR:
@@ -1388,6 +1390,14 @@ class SyncObj(object):
             self.__transport.dropNode(oldNode)
             return True
 
+    def __applyClusterChangesFromLog(self, afterIdx):
+        # Entries that are in the log without having been appended by this process (read from
+        # the journal at start, kept after a snapshot was loaded) take effect here, in log order.
+        for entry in self.__getEntries(max(afterIdx + 1, self.__raftLog[0][1])):
+            clusterChangeRequest = self.__parseChangeClusterRequest(entry[0])
+            if clusterChangeRequest is not None:
+                self.__doChangeCluster(clusterChangeRequest)
+
     def __parseChangeClusterRequest(self, command):
         commandType = ord(command[:1])
         if commandType != _COMMAND_TYPE.MEMBERSHIP:
@@ -1478,6 +1488,7 @@ class SyncObj(object):
 
             if self.__conf.dynamicMembershipChange:
                 self.__updateClusterConfiguration([node for node in data[3] if node != self.__selfNode])
+                self.__applyClusterChangesFromLog(data[1][1])
             # The enabled code version is part of the loaded state
             self.__onSetCodeVersion(self.__enabledCodeVersion)
             return True
